@@ -1,2 +1,45 @@
-(* C13 — placeholder: theorems are added as the proofs land. *)
-From EDP Require Import Base.Bytes Term.Term Codec.Decode.
+(* C13 — the zero-copy decoder agrees with the owned decoder.
+   The two parser families are one set of per-tag parsers dispatched through two generated arm tables
+   (Gen/DecoderArms.v, regenerated from decoder.rs on every run). *)
+From EDP Require Import Base.Bytes Term.Term Gen.Tags Gen.DecoderArms Codec.Decode Codec.DecodeFacts.
+
+(* every arm of the zero-copy table is an arm of the owned table with the same parser: checked by computation
+   on the tables extracted from the current source *)
+Theorem C13_borrowed_arms_are_owned_arms : arms_subb borrowed_arms owned_arms = true.
+Proof. vm_compute. reflexivity. Qed.
+
+(* whatever the zero-copy decoder accepts, the owned decoder accepts with exactly the same term — for all byte
+   strings, all fuel, all oracles (inflate, float text, key order) *)
+Theorem C13_borrowed_implies_owned : forall cfg f bs t r,
+  parse (with_arms cfg borrowed_arms) f bs = POk t r -> parse (with_arms cfg owned_arms) f bs = POk t r.
+Proof. intros cfg f. exact (parse_arms_mono cfg _ _ f (arms_subb_sound _ _ C13_borrowed_arms_are_owned_arms)). Qed.
+
+Theorem C13_borrowed_implies_owned_decode : forall cfg data t,
+  decode (with_arms cfg borrowed_arms) data = DOk t -> decode (with_arms cfg owned_arms) data = DOk t.
+Proof. intros cfg data t. exact (decode_arms_mono cfg _ _ data t (arms_subb_sound _ _ C13_borrowed_arms_are_owned_arms)). Qed.
+
+(* the tags current OTP releases emit over distribution *)
+Definition modern_tags : list N :=
+  [tag_new_float_ext; tag_bit_binary_ext; tag_new_pid_ext; tag_newer_reference_ext; tag_small_integer_ext; tag_integer_ext;
+   tag_small_tuple_ext; tag_large_tuple_ext; tag_nil_ext; tag_string_ext; tag_list_ext; tag_binary_ext; tag_small_big_ext;
+   tag_large_big_ext; tag_new_fun_ext; tag_export_ext; tag_map_ext; tag_atom_utf8_ext; tag_small_atom_utf8_ext; tag_v4_port_ext].
+Definition owned_modern : list (N * N) := filter (fun tp => existsb (N.eqb (fst tp)) modern_tags) owned_arms.
+
+Theorem C13_modern_owned_arms_are_borrowed_arms : arms_subb owned_modern borrowed_arms = true.
+Proof. vm_compute. reflexivity. Qed.
+
+(* conversely: if the owned parser accepts while visiting modern tags only (= the owned parser restricted to the
+   modern arms accepts), the zero-copy parser accepts with the same term *)
+Theorem C13_owned_implies_borrowed_modern : forall cfg f bs t r,
+  parse (with_arms cfg owned_modern) f bs = POk t r -> parse (with_arms cfg borrowed_arms) f bs = POk t r.
+Proof. intros cfg f. exact (parse_arms_mono cfg _ _ f (arms_subb_sound _ _ C13_modern_owned_arms_are_borrowed_arms)). Qed.
+
+(* ... and restricting the owned parser to the modern arms loses nothing on such inputs *)
+Theorem C13_modern_restriction_sound : forall cfg f bs t r,
+  parse (with_arms cfg owned_modern) f bs = POk t r -> parse (with_arms cfg owned_arms) f bs = POk t r.
+Proof.
+  intros cfg f. apply parse_arms_mono. apply arms_subb_sound. vm_compute. reflexivity.
+Qed.
+
+Check C13_borrowed_implies_owned : forall cfg f bs t r,
+  parse (with_arms cfg borrowed_arms) f bs = POk t r -> parse (with_arms cfg owned_arms) f bs = POk t r.
